@@ -7,6 +7,7 @@ import (
 	"os"
 	"path/filepath"
 	"sort"
+	"strings"
 	"time"
 
 	"verif/core"
@@ -119,7 +120,8 @@ func poolCatalogue(r *core.Run, rng *rand.Rand) ([]poolTarget, bool) {
 		add(fmt.Sprintf("short-date#%d/Decode", k), 1, exifCall("Decode", b, -1))
 	}
 	// two spellings of the same zone offset: the reported zone must be the one written in THIS file
-	for k, z := range []string{"+00:00", "-00:00", "+05:30", "+05:30"} {
+	// (incl. spellings the lenient offset parser maps onto the same offset: a blank for a digit)
+	for k, z := range []string{"+00:00", "-00:00", "+05:30", "+05:30", "+ 5:30", "+5 :30", "- 5:30", "-05:30", "+0 :00"} {
 		b := []byte("II*\x00\x08\x00\x00\x00\x02\x00\x32\x01\x02\x00\x14\x00\x00\x00\x26\x00\x00\x00\x69\x87\x04\x00\x01\x00\x00\x00\x3a\x00\x00\x00\x00\x00\x00\x00")
 		b = append(b, "2020:01:02 03:04:05\x00"...)
 		b = append(b, 0x01, 0x00, 0x10, 0x90, 0x02, 0x00, 0x07, 0x00, 0x00, 0x00, 0x4c, 0x00, 0x00, 0x00, 0, 0, 0, 0)
@@ -148,6 +150,16 @@ func poolCatalogue(r *core.Run, rng *rand.Rand) ([]poolTarget, bool) {
 		add(fn+"/rgba64x32", 0, hashOp(fn, img("RGBA", 64, 32, "noise", 15)))
 		add(fn+"/gray128", 0, hashOp(fn, img("Gray", 128, 128, "smooth", 16)))
 		add(fn+"/nil", 0, hashOp(fn, img("nil", 0, 0, "", 0)))
+		// rectangles off the diagonal whose width (or height) is the required one
+		add(fn+"/rgba64x74@10,0", 0, hashOp(fn, img("RGBA", 64, 74, "noise", 17, 10, 0, 0)))
+		add(fn+"/gray74x64@0,10", 0, hashOp(fn, img("Gray", 74, 64, "noise", 18, 0, 10, 0)))
+		add(fn+"/rgba64x54@0,10", 0, hashOp(fn, img("RGBA", 64, 54, "noise", 19, 0, 10, 1)))
+	}
+	// the other hashing entry points: BlurHash of 64x64 images (its three conversion paths), average hash of 8x8 images
+	for k, kind := range []string{"RGBA", "YCbCr", "Gray", "NRGBA"} {
+		add("EncodeBlurHashFast/"+kind+"64-smooth", 3, hashOp("EncodeBlurHashFast", img(kind, 64, 64, "smooth", int64(31+k))))
+		add("EncodeBlurHashFast/"+kind+"64-noise", 3, hashOp("EncodeBlurHashFast", img(kind, 64, 64, "noise", int64(35+k))))
+		add("NewAHash/"+kind+"8-noise", 3, hashOp("NewAHash", img(kind, 8, 8, "noise", int64(41+k))))
 	}
 	for _, fn := range []string{"NewPHash256", "NewPHash256Alt"} {
 		add(fn+"/rgba256-smooth", 3, hashOp(fn, img("RGBA", 256, 256, "smooth", 21)))
@@ -397,6 +409,55 @@ func runC04(r *core.Run) {
 			}
 		}
 	}
+	// ordered pairs inside a family of calls that may share a cache entry (zone spellings): each pair in its own
+	// fresh process, so that the FIRST member really is the first the cache sees
+	var famIdx []int
+	for i, t := range targets {
+		if strings.HasPrefix(t.Name, "zone-spelling") && strings.HasSuffix(t.Name, "/Parse") {
+			famIdx = append(famIdx, i)
+		}
+	}
+	var pops []core.Op
+	var ppair [][2]int
+	for _, a := range famIdx {
+		for _, b := range famIdx {
+			if a == b {
+				continue
+			}
+			args, _ := json.Marshal(map[string]interface{}{"subs": []core.Op{targets[a].Op, targets[b].Op}})
+			pops = append(pops, core.Op{ID: len(pops), Kind: "sequence", Cut: -1, Args: args})
+			ppair = append(ppair, [2]int{a, b})
+		}
+	}
+	pobs, err := core.RunOps(pops, core.WorkerOpts{Fresh: true, Env: env})
+	if err != nil {
+		r.Machinery("worker (family pairs): %v", err)
+		return
+	}
+	for i := range pobs {
+		o := &pobs[i]
+		a, b := ppair[i][0], ppair[i][1]
+		r.Cases++
+		replay := map[string]interface{}{"ops": []core.Op{pops[i]}, "observed": o, "fresh_process_result": &bobs[b], "first": targets[a].Name, "second": targets[b].Name}
+		if o.Bad() {
+			r.Violate("history:crash:"+targets[b].Name, fmt.Sprintf("%s after %s: %s %s%s", targets[b].Name, targets[a].Name, o.BadKind(), o.Panic, o.Crash), replay)
+			continue
+		}
+		var res []struct {
+			R   json.RawMessage `json:"r"`
+			Err string          `json:"err"`
+			Bad string          `json:"bad"`
+		}
+		json.Unmarshal(o.R, &res)
+		if len(res) != 2 {
+			r.Machinery("family pair %d returned %d results", i, len(res))
+			return
+		}
+		if string(res[1].R) != string(bobs[b].R) || res[1].Err != bobs[b].Err || res[1].Bad != bobs[b].Panic {
+			r.Violate("history:metadata:"+targets[b].Name+":after-sibling", fmt.Sprintf("%s returns a different result right after %s than in a fresh process (%s)", targets[b].Name, targets[a].Name, firstDiff(res[1].R, bobs[b].R)), replay)
+		}
+	}
+	r.Extra["family_pairs"] = len(pops)
 	r.Extra["histories_replayed"] = nh
 	r.Extra["catalogue"] = len(targets)
 	r.Exhaustive = false
@@ -484,8 +545,48 @@ func runC05(r *core.Run) {
 	if r.Tier == "thorough" {
 		rounds, batches = 8, 120
 	}
+	// families: the targets that go through the same entry point / function (and so through the same shared state)
+	famOf := func(t *poolTarget) string {
+		if t.Op.Kind == "hash" {
+			var a struct {
+				Fn string `json:"fn"`
+			}
+			json.Unmarshal(t.Op.Args, &a)
+			return "hash:" + a.Fn
+		}
+		var a struct {
+			Entry string `json:"entry"`
+		}
+		json.Unmarshal(t.Op.Args, &a)
+		return t.Op.Kind + ":" + a.Entry
+	}
+	fams := map[string][]int{}
+	var famNames []string
+	for i := range targets {
+		f := famOf(&targets[i])
+		if _, ok := fams[f]; !ok {
+			famNames = append(famNames, f)
+		}
+		fams[f] = append(fams[f], i)
+	}
+	sort.Strings(famNames)
 	var ops []core.Op
 	var subsOf [][]int
+	// homogeneous batches: 16 goroutines inside ONE family at a time, each on its own input
+	for fi, f := range famNames {
+		members := fams[f]
+		var subs []core.Op
+		var idx []int
+		for g := 0; g < 16; g++ {
+			ti := members[(g+fi+int(r.Seed))%len(members)]
+			subs = append(subs, targets[ti].Op)
+			idx = append(idx, ti)
+		}
+		a, _ := json.Marshal(map[string]interface{}{"subs": subs, "rounds": rounds, "procs": []int{4, 16}[fi%2]})
+		ops = append(ops, core.Op{ID: len(ops), Kind: "concurrent", Cut: -1, Args: a, Heavy: true})
+		subsOf = append(subsOf, idx)
+	}
+	r.Extra["families"] = famNames
 	for b := 0; b < batches; b++ {
 		n := []int{4, 16, 64}[b%3]
 		procs := []int{1, 2, 4, 16}[(b/3)%4]
